@@ -664,10 +664,26 @@ def replay(w):
                 return {'reproduced': True, 'detail': 'input modified although copy=True'}
         return {'reproduced': False, 'detail': 'matches'}
     if k == 'gauss':
-        ps = np.concatenate([np.logspace(-19.9, -0.31, 400), [0.5], 1 - np.logspace(-15, -0.31, 400)[::-1]])
+        from fractions import Fraction
+        try:
+            pw, pw2 = float(Fraction(w.get('p', '1/2').replace('?', ''))), float(Fraction(w.get('p2', '0').replace('?', '')))
+        except Exception:
+            pw, pw2 = 0.5, 0.0
+        if w.get('ob') in ('mono_p', 'mono_f') and 0 < pw < pw2 < 1:
+            q1, q2 = util._gauss_quant_odeh_evans(pw), util._gauss_quant_odeh_evans(pw2)
+            inside = pw >= 1e-20 and 1 - pw2 >= 1e-20
+            if q1 > q2 or (inside and q1 >= q2):
+                return {'reproduced': True, 'detail': 'gauss_quant(%r) = %r but gauss_quant(%r) = %r: not increasing' % (pw, q1, pw2, q2)}
+        if w.get('ob') == 'symmetry' and 0 < pw < 1 and 0 < 1 - pw < 1:
+            q1, q2 = util._gauss_quant_odeh_evans(pw), util._gauss_quant_odeh_evans(1 - pw)
+            if abs(q1 + q2) > 1e-6 * max(1.0, abs(q1)):
+                return {'reproduced': True, 'detail': 'gauss_quant(%r) = %r but gauss_quant(1 - p) = %r: not antisymmetric' % (pw, q1, q2)}
+        ps = np.concatenate([np.logspace(-300, -20.1, 60), np.logspace(-19.9, -0.31, 400), [0.5], 1 - np.logspace(-15, -0.31, 400)[::-1]])
         q = np.array([util._gauss_quant_odeh_evans(float(p)) for p in ps])
-        if (np.diff(q) <= 0).any():
-            i = int(np.argmax(np.diff(q) <= 0))
+        strict = (ps[:-1] >= 1e-20)
+        dq = np.diff(q)
+        if (dq < 0).any() or (dq[strict] <= 0).any():
+            i = int(np.argmax((dq < 0) | ((dq <= 0) & strict)))
             return {'reproduced': True, 'detail': 'gauss_quant not increasing between p=%r and p=%r' % (ps[i], ps[i + 1])}
         if abs(util._gauss_quant_odeh_evans(0.3, 2.0, 3.0) - (util._gauss_quant_odeh_evans(0.3) * 3 + 2)) > 1e-12:
             return {'reproduced': True, 'detail': 'gauss_quant not affine in mu/std'}
